@@ -98,10 +98,13 @@ Fixpoint repl {A} (n : nat) (x : A) : list A := match n with O => [] | S k => x 
 Definition as_sched (v : val) : list slabel :=
   flat_map (fun p => repl (as_nat (arg p 1)) (as_slabel (arg p 0))) (as_list v).
 
-(* 2006: the scroll machine of the tree on a schedule: [req, headers, w0, [[label, count]...]] ->
+Definition as_gate (v : val) : gate :=
+  let m := as_int v in if m =? 0 then GateNone else if m =? 1 then GateGe else GateGt.
+
+(* 2006: the scroll machine on a schedule: [req, headers, w0, [[label, count]...], gate (0 none, 1 >=, 2 >)] ->
    [done, lost, edge, lines in the window, offset of the window] *)
-Definition d_scroll_run (req headers w0 : Z) (sched : list slabel) : val :=
-  let s := srun true req headers sched (sinit req w0) in
+Definition d_scroll_run (g : gate) (req headers w0 : Z) (sched : list slabel) : val :=
+  let s := srun g req headers sched (sinit req w0) in
   VL [vbool (sdone s); vbool (k_lost s); vbool (k_edge s); VI (k_wn s); VI (k_woff s)].
 
 Definition dispatch_preview (op : Z) (a : val) : option val :=
@@ -117,5 +120,5 @@ Definition dispatch_preview (op : Z) (a : val) : option val :=
     Some (d_scroll_spec (as_int (arg a 0)) (as_int (arg a 1)) (as_int (arg a 2)) (as_int (arg a 3)) (as_int (arg a 4))
                         (map as_int (as_list (arg a 5))))
   else if op =? 2006 then
-    Some (d_scroll_run (as_int (arg a 0)) (as_int (arg a 1)) (as_int (arg a 2)) (as_sched (arg a 3)))
+    Some (d_scroll_run (as_gate (arg a 4)) (as_int (arg a 0)) (as_int (arg a 1)) (as_int (arg a 2)) (as_sched (arg a 3)))
   else None.
